@@ -199,6 +199,7 @@ where
 {
     let h = hdr_layout::<A>();
     ctx.hsize = h.size();
+    ctx.halign = h.align();
     ctx.up = UP;
     ctx.ga = GA;
     ctx.de = DE;
@@ -281,6 +282,7 @@ where
 {
     let h = hdr_layout::<A>();
     ctx.hsize = h.size();
+    ctx.halign = h.align();
     ctx.up = UP;
     ctx.ga = false;
     ctx.de = DE;
@@ -403,6 +405,7 @@ fn main() {
             op_hist: Default::default(),
             branch: Default::default(),
             hsize: 0,
+            halign: 0,
             up,
             ga,
             de,
